@@ -9,12 +9,21 @@ import c11
 from geohash_twice import Unstable, guard, shape_state, twice
 from c11 import ALPHABET, hash_of_cell, split_bits, _ranges, cell_rect
 
-MODULE = 'GeoVerif.Props.C12'
+MODULE = ['GeoVerif.Props.C12', 'GeoVerif.Props.C12Lattice']
 THEOREMS = ['GV.Flood.' + t for t in (
     'flood_eq_reach', 'flood_schedule_independent', 'flood_sound', 'flood_has_start',
     'flood_complete_of_connected', 'flood_only_connected', 'flood_closed', 'flood_terminates', 'flood_total',
     'multi_is_union', 'hashShape_multi', 'hashCollection_spec', 'hashCollection_len',
-)] + ['GV.Geohash.flood_terminates_geohash']
+)] + ['GV.Geohash.flood_terminates_geohash'] + [
+    # Props/C12Lattice: the connectivity hypothesis of flood_complete_of_connected and the finiteness hypothesis of
+    # flood_terminates *proved* on the lattice Int x Int (grid over Rat) for rectangles, segments and polylines
+    'GV.Flood.flood_terminates_touched'] + ['GV.FloodLat.' + t for t in (
+    'conn_of_split', 'flood_exact_of_conn',
+    'rectTouches_iff_point', 'mem_rectBlock', 'length_rectBlock_le', 'rect_connected', 'rect_touchPath',
+    'rect_flood_complete', 'rect_flood_exact', 'rect_flood_exact_point',
+    'segTouches_iff', 'mem_segBlock', 'seg_connected', 'seg_flood_exact', 'seg_flood_exact_point',
+    'polyTouches_iff', 'polyline_connected', 'polyline_flood_exact', 'polyline_flood_exact_first',
+)]
 
 KEY_F12B = 'NiemeyerHasher._hash_polygon/curved-sliver'
 EPOCH = datetime(1970, 1, 1, tzinfo=timezone.utc)
@@ -978,8 +987,19 @@ def count_cells(line):
     return len(got.split()) if got else 0
 
 
+SRC_THEOREMS = ['GV.C12Src.' + t for t in (
+    'polyLoop2_eq', 'polyLoop1_eq', 'lineLoop2_eq', 'lineLoop1_eq', 'hashPolyS_eq', 'hashLineS_eq', 'hashPolyM_eq', 'hashLineM_eq',
+    'hashPointS_eq', 'hashPointM_eq', 'hashShapePoint_eq', 'hashShapeMPoint_eq', 'hashShapeLine_eq', 'hashShapePoly_eq',
+    'hashShapeMLine_eq', 'hashShapeMPoly_eq', 'collLoop2_eq', 'collLoop1_eq', 'hashCollection_eq', 'coordLoop1_eq',
+    'hashCoordinates_eq',
+    'src_hashPoly_eq_reach', 'src_hashLine_eq_reach', 'src_hashPoly_sound', 'src_hashPoly_complete_of_connected',
+    'src_hashPoly_total', 'src_hashLine_total', 'src_hashShape_multi', 'src_hashCollection_spec', 'src_hashCoordinates_spec',
+)]
+
+
 def check(run):
     run.prove(MODULE, THEOREMS)
+    run.source_tie(['SrcFlood'], 'GeoVerif.Props.C12Src', SRC_THEOREMS)
     rng = run.rng
     gs, G, col, agg = _mods()
     fams = {}
